@@ -202,7 +202,7 @@ def shape(t):
 
 
 def plan(ctx):
-    return [("grep", {"shard": i, "nshards": 16}) for i in range(16)]
+    return [("grep", {"shard": i, "nshards": 16}) for i in range(16)] + [("informats", {"shard": i, "nshards": 4}) for i in range(4)]
 
 
 FILL = ["alpha", "beta:", "x", "log entry", "#", "value=", "--", "[info]", "Z"]
@@ -287,6 +287,61 @@ def grep(ctx, shard, nshards):
     return sub
 
 
+SEPS_F = ["/", ".", "#", "_", "|", ",", ";", "=", "+", "~", "@", "!", "^", "&", "x", " of ", "::", "<>", "*", "?", "$", "'", "(", "{"]
+
+
+def informats(ctx, shard, nshards):
+    """the same selection with 1..24 input formats given, one of which reads the lines' dates (at any
+    position in the list, also as the 16th of 16)"""
+    sub = Sub("c17.informats")
+    V = Viol(sub, "C17")
+    rnd = random.Random(ctx.sub_seed("c17f", shard))
+    B = boundary()
+    for it in range(60 if not ctx.thorough else 1500):
+        k = rnd.choice((1, 2, 3, 8, 15, 16, 16, 17, 24))
+        seps = rnd.sample(SEPS_F, k)
+        real_compact = rnd.random() < 0.5
+        real = "%Y%m%d" if real_compact else "%%d%s%%m%s%%Y" % (seps[0], seps[0])
+        fmts = ["%%d%s%%m%s%%Y" % (sp, sp) for sp in seps[1:]]
+        fmts.insert(rnd.randrange(len(fmts) + 1), real)
+        if real_compact:
+            mk = lambda n: "%04d%02d%02d" % R.ymd(n)
+        else:
+            mk = lambda n, sp=seps[0]: "%02d%s%02d%s%04d" % (R.ymd(n)[2], sp, R.ymd(n)[1], sp, R.ymd(n)[0])
+        base = rnd.choice(B) if rnd.random() < 0.5 else rnd.randrange(R.NMIN + 500, R.NMAX - 500)
+        base = max(R.NMIN + 500, min(R.NMAX - 500, base))
+        days = [base + rnd.randrange(-30, 31) for _ in range(25)]
+        lines = ["%s %s %s" % (rnd.choice(FILL), mk(n), rnd.choice(FILL)) for n in days] + ["no date here", ""]
+        op = rnd.choice(("<", "<=", ">", ">=", "=", "!="))
+        rel = {"<": lambda a, b: a < b, "<=": lambda a, b: a <= b, ">": lambda a, b: a > b, ">=": lambda a, b: a >= b,
+               "=": lambda a, b: a == b, "!=": lambda a, b: a != b}[op]
+        expr = op + R.f_ymd(base)      # the operand is read by the standard reader, not with -i
+        args = []
+        for f in fmts:
+            args += ["-i", f]
+        for inv in (False, True):
+            want = [l for l, n in zip(lines, days) if rel(n, base) != inv] + (lines[-2:] if inv else [])
+            data = "".join(t + "\n" for t in lines).encode()
+            r = run_args(ctx.build, "dgrep", args + (["-v"] if inv else []) + ["--", expr], stdin=data, timeout=15)
+            sub.evaluations += 1
+            sub.nt((k, real, op, inv, base))
+            sub.cls("%d formats" % k)
+            got = r.lines()
+            # lines without a date: -v prints them; keep order
+            wset = want if not inv else [l for l in lines if (l in lines[-2:]) or any(l == x for x in want)]
+            if r.crashed or got != wset:
+                V.add("informats:%s:%s" % ("compact" if real_compact else "sep", "k=%d" % k if k in (15, 16, 17) else "k"),
+                      {"args": args, "expr": expr, "lines": lines, "want": wset, "inv": inv, "kind": "informats"},
+                      expected={"n": len(wset), "first": wset[:2]}, actual={"n": len(got), "first": got[:2], "rc": r.rc, "err": r.err[:200].decode("latin-1")},
+                      weight=k * 100 + len(lines))
+    sub.sample({"cmd": "dgrep -i %d/%m/%Y -i %Y%m%d '<20120304'", "lines": ["x 20120301 y"], "selected": 1})
+    return sub
+
+
 def replay(ctx, subname, case):
+    if case.get("kind") == "informats":
+        data = "".join(t + "\n" for t in case["lines"]).encode()
+        r = run_args(ctx.build, "dgrep", case["args"] + (["-v"] if case["inv"] else []) + ["--", case["expr"]], stdin=data, timeout=15)
+        return None if (not r.crashed and r.lines() == case["want"]) else {"expected": case["want"][:3], "actual": r.lines()[:3], "rc": r.rc}
     f = judge(ctx, case["expr"], case["lines"], case["want"], case["inv"])
     return None if not f else {"why": f[0], "expected": f[1], "actual": f[2]}
